@@ -119,7 +119,7 @@ func check(c Case) (o ev.Outcome) {
 		}
 		before := len(o.Violations)
 		ev.Guard(&o, "compare", func() {
-			schema.CompareModules(&o, c.Set, obs, trees, canon.DiffOpts{Types: true}, "C08", "deviated-tree")
+			schema.CompareModules(&o, c.Set, obs, trees, canon.DiffOpts{Types: true, Stmts: true}, "C08", "deviated-tree")
 		})
 		if len(o.Violations) > before {
 			v := &o.Violations[len(o.Violations)-1]
@@ -286,6 +286,8 @@ func gen(t *rapid.T) Case {
 	o.Typedefs = rapid.IntRange(0, 3).Draw(t, "typedefs") == 0
 	o.RPC = rapid.IntRange(0, 2).Draw(t, "rpc") == 0
 	o.Budget = 24
+	o.Extras = true // must, when, status, reference, presence and extension statements on nodes, uses and augments
+	schema.AugmentExtras = true
 	set, _ := schema.Generate(t, o)
 	schema.AddAugments(t, set, 0, 2)
 	c := Case{Set: set, Repeats: 6}
